@@ -1,7 +1,7 @@
 (* C30 — endpoint level, part C: the per-tier lists, the reference composition, the final list. *)
 From Coq Require Import List NArith Bool Arith Lia.
 From Verif.Common Require Import Packet PolicyRef.
-From Verif.C30 Require Import Model Spec ProofsCidr ProofsRule ProofsTier EndModel EndSpec EndProofsA EndProofsB.
+From Verif.C30 Require Import Model Spec ProofsCidr ProofsRule ProofsTier EndModel EndSpec EndProofsA EndProofsB WfProofs.
 Import ListNotations.
 Open Scope N_scope.
 Arguments N.modulo : simpl never.
@@ -278,6 +278,78 @@ Proof.
       rewrite seq_tiers_app_last by exact HaL. f_equal. symmetry. apply seq_ref_app_closed. exact HaL.
 Qed.
 
+(* ------------------------------------------------------------------ lists_wf follows from the domain *)
+Lemma supported_nets : forall inbound r, supported_rule inbound r = true ->
+  forallb wf_cidr4 (r_src_nets r) = true /\ forallb wf_cidr4 (r_dst_nets r) = true.
+Proof.
+  intros inbound r H. unfold supported_rule, supported_criteria in H.
+  apply andb_true_iff in H as [H _]. apply andb_true_iff in H as [H _].
+  apply andb_true_iff in H as [H _]. apply andb_true_iff in H as [H Hd]. apply andb_true_iff in H as [_ Hs]. split; assumption.
+Qed.
+
+Lemma rules_to_hns_wf : forall st b chunk inbound rs, wf_sets st = true ->
+  forallb (supported_rule inbound) rs = true -> Forall (fun h => wf_hb h = true) (rules_to_hns st b chunk rs).
+Proof.
+  intros st b chunk inbound rs Hwf Hs. unfold rules_to_hns. apply Forall_forall. intros h Hh.
+  apply in_flat_map in Hh as [r [Hr Hh]]. rewrite forallb_forall in Hs. destruct (supported_nets inbound r (Hs r Hr)) as [H1 H2].
+  destruct (rule_to_hns st b chunk r) as [e|l] eqn:E; [contradiction|].
+  pose proof (rule_to_hns_wf st b chunk r l Hwf H1 H2 E) as Hl. rewrite Forall_forall in Hl. auto.
+Qed.
+
+Lemma tier_hns_wfb : forall st chunk pols inbound eot,
+  wf_sets st = true ->
+  forallb (fun bp : bool * polset => fst bp) pols = true ->
+  N.of_nat (count_rules (tier_sets st chunk pols)) < 64000 ->
+  forallb (fun bp : bool * polset => forallb (supported_rule inbound) (dir_rules inbound (snd bp))) pols = true ->
+  forallb wf_hb (tier_hns st chunk pols inbound eot) = true.
+Proof.
+  intros st chunk pols inbound eot Hwf Hpres Hcount Hsup.
+  unfold tier_hns, get_policy_set_rules.
+  rewrite (tier_sets_all st chunk pols Hpres) in *. rewrite count_rules_all in Hcount.
+  set (lists := map (fun bp : bool * polset => convert_policy st chunk (snd bp)) pols) in *.
+  rewrite emit_sets_all.
+  destruct (emit_members (dir_of inbound) (concat lists) BASE_PRIO None) as [[out p2] l2] eqn:E.
+  assert (Hb : BASE_PRIO + N.of_nat (length (concat lists)) < U16) by (unfold BASE_PRIO, U16; lia).
+  destruct (emit_members_spec _ _ _ _ _ _ _ E Hb) as (_ & _ & _ & _ & _ & I6).
+  rewrite forallb_app. apply andb_true_iff. split; [|reflexivity].
+  apply forallb_forall. apply Forall_forall.
+  apply (strip_forall (fun h => wf_hb h = true) out (filter (dirb (dir_of inbound)) (concat lists)) I6).
+  rewrite filter_concat. unfold lists. rewrite map_map.
+  rewrite (map_ext _ (fun bp : bool * polset => rules_to_hns st inbound chunk (dir_rules inbound (snd bp))))
+    by (intros; apply filter_dir_convert).
+  apply Forall_forall. intros h Hh. apply in_concat in Hh as [l [Hl Hh]]. apply in_map_iff in Hl as [bp [<- Hbp]].
+  rewrite forallb_forall in Hsup.
+  pose proof (rules_to_hns_wf st inbound chunk inbound _ Hwf (Hsup bp Hbp)) as Hw. rewrite Forall_forall in Hw.
+  change (wf_hb (strip h)) with (wf_hb h). auto.
+Qed.
+
+Lemma lists_wf_from_domain : forall st chunk tiers profiles inbound,
+  ep_domain st chunk tiers profiles inbound = true -> lists_wf st chunk tiers profiles inbound = true.
+Proof.
+  intros st chunk tiers profiles inbound Hd. unfold ep_domain in Hd.
+  apply andb_true_iff in Hd as [Hd _]. apply andb_true_iff in Hd as [Hd _].
+  apply andb_true_iff in Hd as [Hd Hpres]. apply andb_true_iff in Hd as [Hd Hsmall].
+  apply andb_true_iff in Hd as [Hd Hrules]. apply andb_true_iff in Hd as [Hwf _].
+  unfold rules_ok in Hrules. apply andb_true_iff in Hrules as [Hrt Hrp].
+  unfold lists_small in Hsmall. apply andb_true_iff in Hsmall as [Hst Hsp].
+  assert (HT : forall t, In t (live_tiers inbound tiers) ->
+            forallb wf_hb (tier_hns st chunk (tier_pols inbound t) inbound (negb (ts_default_pass t))) = true).
+  { intros t Ht. unfold live_tiers in Ht. apply filter_In in Ht as [Hin _].
+    rewrite forallb_forall in Hst. pose proof (Hst t Hin) as Hct. apply N.ltb_lt in Hct.
+    apply tier_hns_wfb; auto.
+    - apply (forallb_flat_map_in _ _ _ (tier_pols inbound) tiers t Hpres Hin).
+    - apply (forallb_flat_map_in _ _ _ (tier_pols inbound) tiers t Hrt Hin). }
+  assert (HPf : forallb wf_hb (tier_hns st chunk (map (fun ps => (true, ps)) profiles) inbound true) = true).
+  { apply N.ltb_lt in Hsp. apply tier_hns_wfb; auto.
+    - rewrite forallb_forall. intros bp Hb. apply in_map_iff in Hb as [ps [<- _]]. reflexivity.
+    - rewrite forallb_forall in *. intros bp Hb. apply in_map_iff in Hb as [ps [<- Hps]]. apply Hrp. exact Hps. }
+  unfold lists_wf, dir_lists.
+  destruct (is_nil _ || negb _).
+  - rewrite forallb_app. apply andb_true_iff. split; [|cbn [forallb]; rewrite HPf; reflexivity].
+    apply forallb_forall. intros l Hl. apply in_map_iff in Hl as [t [<- Ht]]. apply HT. exact Ht.
+  - apply forallb_forall. intros l Hl. apply in_map_iff in Hl as [t [<- Ht]]. apply HT. exact Ht.
+Qed.
+
 (* ------------------------------------------------------------------ the final list *)
 Lemma hns_gives_filter_eq : forall l l' inbound p a,
   filter (fun h => hmatch inbound h p) l = filter (fun h => hmatch inbound h p) l' ->
@@ -347,12 +419,12 @@ Qed.
 
 Theorem endpoint_same_verdict : forall st chunk tiers profiles host nhp final inbound p,
   ep_domain st chunk tiers profiles true = true -> ep_domain st chunk tiers profiles false = true ->
-  lists_wf st chunk tiers profiles true = true -> lists_wf st chunk tiers profiles false = true ->
   endpoint_rules true st chunk tiers profiles host nhp = Some final ->
   fits_prio final = true -> ep_packet_ok host inbound p = true ->
   ep_gives final inbound p (ep_expected st tiers profiles inbound p) = true.
 Proof.
-  intros st chunk tiers profiles host nhp final inbound p Di Do Wi Wo Hfin Hfit Hpk.
+  intros st chunk tiers profiles host nhp final inbound p Di Do Hfin Hfit Hpk.
+  pose proof (lists_wf_from_domain _ _ _ _ _ Di) as Wi. pose proof (lists_wf_from_domain _ _ _ _ _ Do) as Wo.
   unfold ep_packet_ok in Hpk. apply andb_true_iff in Hpk as [Hp Hnode].
   destruct (dir_flat st chunk tiers profiles true p Di Wi Hp) as [fi [Efi [Wfi Ffi]]].
   destruct (dir_flat st chunk tiers profiles false p Do Wo Hp) as [fo [Efo [Wfo Ffo]]].
